@@ -234,26 +234,87 @@ def r3(ctx):
                  f"`{norm(b)[:80]}` re-orders levels between the categorical conversion and the dummy encoding")
     if not bad:
         ctx.ok("C08.R3", "the declared level order is not re-sorted", f.where)
-    t = norm(f.node)
-    ok = "data = pandas.Series(pandas.Categorical(data, categories=levels))" in t
+    from ..expect import contains, contains_any
+    ok, why = contains_any(P, f, ["""
+        def encode_contrasts(data, contrasts=None, *, levels=None, reduced_rank=False, output=None, _state=None, _spec=None):
+            if levels is not None:
+                data = pandas.Series(pandas.Categorical(data, categories=levels))
+            else:
+                ...
+            ...
+    """, """
+        def encode_contrasts(data, contrasts=None, *, levels=None, reduced_rank=False, output=None, _state=None, _spec=None):
+            if levels is not None:
+                data = pandas.Series(pandas.Categorical(data, levels))
+            else:
+                ...
+            ...
+    """])
     ctx.check(ok, "C08.R3", "explicit / recorded levels are passed through as given", f.where, ctx.construct(f, text="Categorical(categories=levels)"),
-              "expected pandas.Categorical(data, categories=levels)")
-    ok = "data = pandas.Series(data).astype('category')" in t
+              f"expected pandas.Categorical(data, categories=levels): {why}")
+    ok, why = contains(P, f, """
+        def encode_contrasts(data, contrasts=None, *, levels=None, reduced_rank=False, output=None, _state=None, _spec=None):
+            if levels is not None:
+                ...
+            else:
+                data = pandas.Series(data).astype("category")
+            ...
+    """)
     ctx.check(ok, "C08.R3", "levels are discovered by the categorical dtype conversion (sorted for text, declared order for category dtype)", f.where,
-              ctx.construct(f, text="astype(category)"), "expected pandas.Series(data).astype('category') when no levels are given")
-    ok = "categories = list(data.cat.categories)" in t and "encoded = pandas.get_dummies(data)" in t
+              ctx.construct(f, text="astype(category)"), f"expected pandas.Series(data).astype('category') when no levels are given: {why}")
+    ok, why = contains(P, f, """
+        def encode_contrasts(data, contrasts=None, *, levels=None, reduced_rank=False, output=None, _state=None, _spec=None):
+            if output in ("narwhals", "pandas", "numpy"):
+                categories = list(data.cat.categories)
+                encoded = pandas.get_dummies(data)
+            elif output == "sparse":
+                ...
+            else:
+                raise ValueError("")
+            _state["categories"] = categories
+            ...
+    """)
     ctx.check(ok, "C08.R3", "dummy columns and reported categories both come from the categorical's own category list", f.where,
-              ctx.construct(f, text="categories/get_dummies"), "categories must be list(data.cat.categories) and dummies pandas.get_dummies(data)")
-    ok = "(categories, encoded) = categorical_encode_series_to_sparse_csc_matrix(data)" in t or "categories, encoded = categorical_encode_series_to_sparse_csc_matrix(data)" in t
-    ctx.check(ok, "C08.R3", "the sparse path encodes the same categorical", f.where, ctx.construct(f, text="sparse dummy"), "sparse dummy encoding call changed")
-    ok = "contrasts.apply(encoded, levels=categories, reduced_rank=reduced_rank, output=output)" in t
+              ctx.construct(f, text="categories/get_dummies"), f"categories must be list(data.cat.categories) and dummies pandas.get_dummies(data): {why}")
+    ok, why = contains(P, f, """
+        def encode_contrasts(data, contrasts=None, *, levels=None, reduced_rank=False, output=None, _state=None, _spec=None):
+            if output in ("narwhals", "pandas", "numpy"):
+                ...
+            elif output == "sparse":
+                categories, encoded = categorical_encode_series_to_sparse_csc_matrix(data)
+            else:
+                raise ValueError("")
+            _state["categories"] = categories
+            ...
+    """)
+    ctx.check(ok, "C08.R3", "the sparse path encodes the same categorical", f.where, ctx.construct(f, text="sparse dummy"), f"sparse dummy encoding call changed: {why}")
+    ok, why = contains(P, f, """
+        def encode_contrasts(data, contrasts=None, *, levels=None, reduced_rank=False, output=None, _state=None, _spec=None):
+            if output in ("narwhals", "pandas", "numpy"):
+                categories = list(data.cat.categories)
+                encoded = pandas.get_dummies(data)
+            elif output == "sparse":
+                categories, encoded = categorical_encode_series_to_sparse_csc_matrix(data)
+            else:
+                raise ValueError("")
+            return contrasts.apply(encoded, levels=categories, reduced_rank=reduced_rank, output=output)
+    """)
     ctx.check(ok, "C08.R3", "contrasts are applied with the same category order", f.where, ctx.construct(f, text="apply(levels=categories)"),
-              "contrasts.apply must receive levels=categories")
+              f"contrasts.apply must receive levels=categories: {why}")
     sp = P.func("formulaic.utils.sparse.categorical_encode_series_to_sparse_csc_matrix")
-    ts = norm(sp.node)
-    ok = "series = pandas.Categorical(series, levels)" in ts and "levels = list(levels or series.categories)" in ts and "shape=(series.shape[0], len(levels))" in ts
+    SK = """
+        def categorical_encode_series_to_sparse_csc_matrix(series, levels=None, drop_first=False):
+            series = pandas.Categorical(series, %s)
+            levels = list(levels or series.categories)
+            ...
+            codes = series.codes
+            ...
+            sparse_matrix = spsparse.csc_matrix((numpy.ones(codes.shape[0], dtype=float), (indices, codes)), shape=(series.shape[0], len(levels)))
+            return levels, sparse_matrix
+    """
+    ok, why = contains_any(P, sp, [SK % "levels", SK % "categories=levels"])
     ctx.check(ok, "C08.R3", "the sparse encoder keeps the categorical's level order and one column per level", sp.where,
-              ctx.construct(sp, text="sparse levels"), "sparse dummy encoder level handling changed")
+              ctx.construct(sp, text="sparse levels"), f"sparse dummy encoder level handling changed: {why}")
 
 
 def r4(ctx):
